@@ -28,7 +28,7 @@ RULE = (
 REQUIRED_COUNTERS = ["runs_ok", "records_compared", "tag_decisions_checked", "swap_reruns", "list_lines_checked", "hook_reads_seen"]
 ASSUMPTIONS = [
     "when the maxima of several phase sets tie, either set's decision is accepted",
-    "for BX clouds (linked reads) only conservation and the list file are judged",
+    "for BX clouds (linked reads) the read-cloud rule is recomputed (cloud = unprocessed reads of one barcode in read-set order); clouds whose evidence ties between phase sets, and everything depending on them, are not judged",
     "overlapping or descending --regions are refused by whatshap and are outside the workload",
 ]
 WATCHDOG = {"quick": 300, "thorough": 900}
@@ -52,7 +52,7 @@ def _install():
             rs, ids = Real.read(self, chromosome, variants, sample, **kw)
             _CAP["hits"] += 1
             for r in rs:
-                _CAP["reads"].append((chromosome, sample, r.name, [(v.position, v.allele, v.quality) for v in r], r.BX_tag if r.has_BX_tag() else None))
+                _CAP["reads"].append((chromosome, sample, r.name, [(v.position, v.allele, v.quality) for v in r], r.BX_tag if r.has_BX_tag() else None, r.reference_start))
             return rs, ids
 
     ht.PhasedInputReader = Traced
@@ -344,7 +344,7 @@ def run_one(rng, counters):
         targets = opts.get("samples") or samples
         infos = {s: phase_info(doc, s) for s in targets}
         by_name = {}
-        for chrom, sample, name, vars_, bx in cap:
+        for chrom, sample, name, vars_, bx, rstart in cap:
             by_name[(chrom, sample, name)] = (sample, vars_, bx)
 
         def sample_of(a):
@@ -354,6 +354,40 @@ def run_one(rng, counters):
 
         nontrivial = False
         linked = opts["bx"] and not opts["ignore_linked_read"]
+        cloud_expect = {}
+        if linked:
+            # read clouds: in read-set order, an unprocessed read takes along all unprocessed reads with its barcode (within the
+            # distance cutoff, which exceeds the contig here); the cloud's summed evidence decides for all its reads; a decided cloud is
+            # registered under its barcode and lends its tag to alignments of that barcode whose read carries no evidence of its own
+            groups = {}
+            for chrom, sample, name, vars_, bx, rstart in cap:
+                groups.setdefault((chrom, sample), []).append((name, vars_, bx, rstart))
+            for (chrom, sample), reads in groups.items():
+                info = infos.get(sample) if not opts.get("ignore_read_groups") else infos[targets[0]]
+                assign, clouds, murky, done = {}, {}, set(), set()
+                for name, vars_, bx, rstart in reads:
+                    if name in done:
+                        continue
+                    members = [(name, vars_)]
+                    if bx is not None:
+                        members += [(n2, v2) for n2, v2, b2, s2 in reads if n2 != name and n2 not in done and b2 == bx and abs(s2 - rstart) <= 50000]
+                    done.update(n for n, _ in members)
+                    outs, scores = decide([x for _, v in members for x in v], info or {}, chrom)
+                    if len(outs) > 1:
+                        # several phase sets tie for the maximum: either decision is acceptable, and so is everything that depends on it
+                        for n, _ in members:
+                            assign[n] = "murky"
+                        if bx is not None:
+                            murky.add(bx)
+                        continue
+                    (o,) = outs
+                    if o is None:
+                        continue
+                    if bx is not None:
+                        clouds.setdefault(bx, []).append((rstart, o[0], o[1]))
+                    for n, _ in members:
+                        assign[n] = o
+                cloud_expect[(chrom, sample)] = (assign, clouds, murky)
         seen_out = set()
         for a in got:
             if a.reference_id < 0:
@@ -367,6 +401,28 @@ def run_one(rng, counters):
                     viol.append({"mech": "tag-on-ignored-alignment", "msg": "%s flag %d carries tags %r" % (a.query_name, a.flag, t)})
                 continue
             if linked:
+                exp = cloud_expect.get((chrom, sample_of(a)))
+                if exp is None:
+                    continue
+                assign, clouds, murky = exp
+                abx = a.get_tag("BX") if a.has_tag("BX") else None
+                if a.query_name in assign:
+                    if assign[a.query_name] == "murky":
+                        continue
+                    want = assign[a.query_name]
+                elif abx is not None:
+                    if abx in murky:
+                        continue
+                    want = None
+                    for st, hp, ps in clouds.get(abx, []):
+                        if abs(st - a.reference_start) <= 50000:
+                            want = (hp, ps, None)
+                            break
+                else:
+                    want = None
+                counters["linked_tag_decisions_checked"] = counters.get("linked_tag_decisions_checked", 0) + 1
+                if t != want:
+                    viol.append({"mech": "wrong-tag:linked", "msg": "%s (%s, BX %r) tagged %r, the read-cloud rule gives %r" % (a.query_name, chrom, abx, t, want)})
                 continue
             key = (chrom, sample_of(a), a.query_name)
             if key not in by_name:
